@@ -272,7 +272,7 @@ def W2(tier, **kw):
     return c
 
 
-KEYOF = {"l1": "shared", "l2": "shared", "l3": "own3"}
+KEYOF = {"l1": "shared", "l2": "shared", "l3": "own3", "l4": "shared", "l5": "own5"}
 
 
 def PAD(tier, nwit, **kw):
@@ -397,20 +397,62 @@ CHECKS["C04"] = make_check("C04", c04_plans,
 
 # ----------------------------------------------------------------------------- C08
 
+def sweep_runs(tier):
+    """concrete size pairs for the honest step stored m -> submitted n (own embedding per run: sigma = [0, m, n])"""
+    def mk(c, g, rng):
+        E = {"k": "empty"}
+        tofu = lambda n: {"op": "update", "log": "l1", "req": {"auth": "good", "old": 0, "b": 0, "n": n, "extra": 0, "stale": 0, "ext": 0, "pf": E}}
+        pairs = set()
+        lim = 40 if tier == "quick" else 64
+        for n in range(0, lim + 1):
+            for m in range(0, n + 1):
+                pairs.add((m, n))
+        ms = range(0, 65537) if tier != "quick" else sorted(set(rng.sample(range(0, 65537), 1500)) | {0, 1, 255, 256, 257, 65535, 65536})
+        for m in ms:
+            np2 = 1
+            while np2 <= m:
+                np2 *= 2
+            for n in (m, m + 1, np2, 65536):
+                if n >= m:
+                    pairs.add((m, n))
+        for bits, cnt in ((40, 600), (62, 300), (63, 100)):
+            for _ in range(cnt if tier != "quick" else cnt // 4):
+                n = rng.getrandbits(bits) + 2
+                m = rng.randrange(0, n)
+                pairs.add((m, n))
+        runs = []
+        for j, (m, n) in enumerate(sorted(pairs)):
+            if m == 0 and n == 0:
+                runs.append({"id": "sw%d" % j, "sigma": [0, 1, 2], "steps": [tofu(0), {"op": "probe", "log": "l1", "n": 0}]})
+            elif m == 0:
+                runs.append({"id": "sw%d" % j, "sigma": [0, n, n + 1], "steps": [tofu(0), {"op": "probe", "log": "l1", "n": 1}]})     # stored size 0 (F1)
+            elif m == n:
+                runs.append({"id": "sw%d" % j, "sigma": [0, m, m + 1], "steps": [tofu(1), {"op": "probe", "log": "l1", "n": 1}]})     # same-size refresh
+            else:
+                runs.append({"id": "sw%d" % j, "sigma": [0, m, n], "steps": [tofu(1), {"op": "probe", "log": "l1", "n": 2}]})
+        return runs
+    return mk
+
+
 def c08_plans(tier):
     if tier == "quick":
         c = consts(MaxSize=3, NBranch=2, ForkAt=Sub("Fork_2"), Olds={0, 1, 2, 3, 4}, Extras={0, 1, 3, 4, 5, 6}, Exts={0, 1}, BadKinds={"random", "flip"}, BadAuths={"badsig"})
         return [Plan("MC_Witness(all states)", c, edges=False, probes=True, nwalks=150, depth=30, stores=("inmem", "sqlmem"), embeds=("id", "pow2")),
+                Plan("size sweep (honest step m -> n)", consts(MaxSize=2, NBranch=1, Olds={0, 1, 2}, BadKinds={"random"}, BadAuths={"badsig"}, WithUnknown=False), edges=False,
+                     stores=("inmem",), embeds=("id",), extra_runs=sweep_runs(tier)),
                 Plan("MC_Witness(all states of the unguarded design)", dict(c, PadGuard=False, MaxSize=2, Olds={0, 1, 2, 3}), edges=False, probes=True, nwalks=20, depth=10, stores=("inmem",), embeds=("id",))]
     c = consts(MaxSize=4, NBranch=3, ForkAt=Sub("Fork_2_0"), Olds={0, 1, 2, 3, 4, 5}, Extras={0, 1, 3, 4, 5, 6}, Stales={0, 1}, Exts={0, 1}, BadKinds={"random"}, BadAuths={"badsig"})
     return [Plan("MC_Witness(all states)", c, edges=False, probes=True, nwalks=1500, depth=40, stores=T_ST, embeds=T_EMB, edge_cap=400),
+            Plan("size sweep (honest step m -> n)", consts(MaxSize=2, NBranch=1, Olds={0, 1, 2}, BadKinds={"random"}, BadAuths={"badsig"}, WithUnknown=False), edges=False,
+                 stores=("inmem", "sqlmem"), embeds=("id",), extra_runs=sweep_runs(tier)),
             Plan("MC_Witness(all states of the unguarded design)", dict(c, PadGuard=False, Stales={0}), edges=False, probes=True, nwalks=100, depth=20, stores=("inmem", "sqlfile"),
                  embeds=("id", "huge"), edge_cap=400)]
 
 
 CHECKS["C08"] = make_check("C08", c08_plans,
     "shortest path to EVERY reachable state of the bounded model (states reached through refused forgeries, padded / extended notes, a first checkpoint of size 0) and random walks, "
-    "each followed by the honest request (old = stored size, genuine/empty proof, one signature line) for every size >= stored; judged by HonestProgress; "
+    "each followed by the honest request (old = stored size, genuine/empty proof, one signature line) for every size >= stored; plus a numeric sweep of concrete size pairs (all m <= n <= 40 "
+    "(thorough 64), stored sizes m over 0..2^16 (thorough: every m) with n in {m, m+1, next power of two, 2^16}, random pairs up to 2^40, 2^62, 2^63), each with its own embedding; judged by HonestProgress; "
     "distinct = distinct (pre-state, honest probe)", lambda e: e.get("e") == "update" and e.get("req", {}).get("auth") == "good" and e.get("req", {}).get("extra") == 0)
 
 # ----------------------------------------------------------------------------- C12 (isolation half; identity half is in checks_omni)
@@ -500,7 +542,9 @@ def c12_plans(tier):
         return [Plan("MC_Witness2(shared key)", W2(tier, MaxSize=2, Olds={0, 1, 2, 3}, BadKinds={"random"}), keyof=KEYOF, edges=True, max_edges=15000,
                      stores=("inmem", "sqlmem"), embeds=("id",), extra_runs=interleave_runs)]
     return [Plan("MC_Witness2(3 logs)", W2(tier, MaxSize=2, Olds={0, 1, 2, 3}, BadKinds={"random"}), keyof=KEYOF, edges=True, max_edges=120000,
-                 stores=T_ST, embeds=("id", "pow2"), extra_runs=lambda c, g, rng: interleave_runs(c, g, rng, 1500, 40))]
+                 stores=T_ST, embeds=("id", "pow2"), extra_runs=lambda c, g, rng: interleave_runs(c, g, rng, 1500, 40)),
+            Plan("MC_Witness2(5 logs, three of them sharing one key)", W2(tier, Logs={"l1", "l2", "l3", "l4", "l5"}, Olds={0, 1}, BadKinds={"random"}, BadAuths={"peercp"}, WithUnknown=False),
+                 keyof=KEYOF, edges=True, max_edges=60000, stores=("inmem", "sqlfile"), embeds=("id",), extra_runs=lambda c, g, rng: interleave_runs(c, g, rng, 800, 50))]
 
 
 CHECKS["C12"] = make_check("C12", c12_plans,
